@@ -378,6 +378,148 @@ def judge_history(ctx, case, tag="gen"):
                     f["what"] += " (only after the preceding calls on the same grid object: stale state)"
 
 
+# ---------------------------------------------------------------------------------------------
+# process-state stream: many grids built, integrated and RELEASED one after another in one process
+# ---------------------------------------------------------------------------------------------
+
+
+class FixedRef:
+    """reference areas computed BEFORE the stream starts (so that no reference Grid object is created or freed
+    while the stream runs: nothing but the grids under test competes for the freed addresses)"""
+
+    def __init__(self, table):
+        self.table = table
+
+    def get(self, rule, order):
+        return self.table[(rule, order)]
+
+
+def ring(k, lat_lo, lat_hi, lon0=0.0):
+    """k lat/lon boxes around the globe between two latitudes: n_face = k whatever the band is"""
+    lon = [lon0 + 360.0 * i / k for i in range(k)]
+    lon = [x - 360.0 if x > 180.0 else x for x in lon]
+    faces = [[i, (i + 1) % k, k + (i + 1) % k, k + i] for i in range(k)]
+    return dict(kind=f"ring{k}", faces=faces, lon=lon + lon, lat=[lat_lo] * k + [lat_hi] * k)
+
+
+def family_mesh(rng, fam):
+    """a mesh of family `fam`: the SAME n_face for every member, different geometry (hence different areas)"""
+    kind, p = fam
+    if kind == "ring":
+        lo = rng.uniform(-70, 40)
+        return ring(p, lo, lo + rng.uniform(4, 25), lon0=rng.uniform(0, 90))
+    if kind == "hull":
+        return mesh_dict(meshes.hull(p, rng))  # 2p-4 triangles
+    nx, ny = p
+    return mesh_dict(meshes.patch(nx, ny, lon0=rng.uniform(-170, 100), lat0=rng.uniform(-75, 40), dlon=rng.uniform(3, 12),
+                                  dlat=rng.uniform(3, 9)))
+
+
+def gen_process(ctx, n_grids):
+    """a process history: [{mesh, calls, keep}] — every grid is integrated with the stream's (rule, order), data and the
+    constant 1; `keep` = stay alive while the next grid is built and integrated, then integrate on it again"""
+    rng = ctx.rng
+    fam = rng.choice([("ring", rng.choice([3, 4, 5, 6])), ("hull", rng.choice([4, 5, 6, 7])), ("patch", rng.choice([(2, 2), (3, 1), (2, 3)]))])
+    other = rng.choice([("ring", 7), ("hull", 8), ("patch", (1, 1))])
+    ro = rng.choice([r for r in RULES if r != ("triangular", 4)] * 3 + [("triangular", 4)])
+    steps = []
+    for i in range(n_grids):
+        f = fam if rng.random() < 0.8 else other
+        md = family_mesh(rng, f)
+        nf = len(md["faces"])
+        sz = dict(n_face=nf)
+        calls = [make_call(rng, sz, "n_face", ro, max_lead=1), make_call(rng, sz, "n_face", ro, ones=True, rank=0)]
+        if rng.random() < 0.25:
+            calls.append(make_call(rng, sz, "n_face", rng.choice(RULES), max_lead=1))
+        steps.append(dict(mesh=md, calls=calls, keep=(i % 5 == 3)))
+    return dict(kind="process", family=str(fam), rule=list(ro), steps=steps)
+
+
+def run_process(ctx, case):
+    """build → integrate → judge → release, one grid after the other.  The harness keeps NO reference to a finished grid
+    (only ints and JSON-able records), calls gc.collect() after every release and counts how often a later grid re-uses
+    the address of a dead one."""
+    import gc
+
+    import uxarray as ux
+
+    steps = case["steps"]
+    # 1. all reference areas first, on throw-away grids that never see integrate()
+    refs = []
+    for st in steps:
+        table = {}
+        try:
+            rg = build_grid(st["mesh"], ux)
+            sizes = dict(n_face=int(rg.n_face), n_node=int(rg.n_node), n_edge=int(rg.n_edge))
+            for c in st["calls"]:
+                k = (c["rule"], c["order"])
+                if k not in table:
+                    try:
+                        table[k] = np.array(rg.compute_face_areas(*k)[0], dtype=float)
+                    except Exception as e:
+                        table[k] = e
+            del rg
+        except Exception as e:
+            sizes = None
+            ctx.hit(f"process:skipped-grid-{type(e).__name__}")
+        refs.append((sizes, table))
+    gc.collect()
+
+    seen_ids, reuses, n_done = set(), 0, 0
+
+    def judge(g, idx, which):
+        sizes, table = refs[idx]
+        st = steps[idx]
+        for j, call in enumerate(st["calls"]):
+            inp = dict(kind="process", family=case.get("family"), rule=case.get("rule"), failing_step=idx, failing_call=j, phase=which,
+                       steps=[dict(s, calls=s["calls"]) for s in steps[: idx + 1]], sizes=sizes)
+            key = ("process", str(st["mesh"])[:300], call["rule"], call["order"], tuple(call["shape"]), call["dtype"], str(call["data"][:32]), which)
+            ctx.case(key, nontrivial=True)
+            ctx.hit(f"process:call:{which}")
+            ctx.hit(f"rule:{call['rule']}/{call['order']}")
+            if len(set(call["data"])) == 1 and call["data"][0] == 1:
+                ctx.hit("process:constant-one")
+            n_before = len(ctx.failures)
+            bad = run_call(ctx, ux, g, sizes, FixedRef(table), call, inp)
+            if bad:
+                for f in ctx.failures[n_before:]:
+                    f["signature"] += "/process-state"
+                    f["what"] += (f" — observed on grid {idx + 1} of a sequence of grids built, integrated and released one after another "
+                                  "in one process (the replay re-runs the whole sequence up to this grid); when the same clause is not also "
+                                  "reported for single calls, the result depends on grids integrated EARLIER, i.e. on state kept outside "
+                                  "the grid object")
+
+    prev = None  # at most ONE earlier grid is alive, and only when its step says keep
+    prev_idx = None
+    for idx, st in enumerate(steps):
+        if refs[idx][0] is None:
+            continue
+        g = build_grid(st["mesh"], ux)
+        gid = id(g)
+        if gid in seen_ids:
+            reuses += 1
+            ctx.hit("process:grid-address-reused")
+        seen_ids.add(gid)
+        n_done += 1
+        ctx.hit("process:grids")
+        judge(g, idx, "fresh")
+        if prev is not None:
+            ctx.hit("process:two-grids-alive")
+            judge(prev, prev_idx, "again-while-another-grid-is-alive")
+            judge(g, idx, "again-after-the-other")
+            prev = prev_idx = None
+        if st.get("keep"):
+            prev, prev_idx = g, idx
+        del g
+        gc.collect()
+    prev = None
+    gc.collect()
+    ps = ctx.extra.setdefault("process_state", dict(streams=0, grids=0, address_reuses=0))
+    ps["streams"] += 1
+    ps["grids"] += n_done
+    ps["address_reuses"] += reuses
+
+
 def next_rule(ctx, pool):
     if not pool:
         pool.extend(RULES)
@@ -465,7 +607,10 @@ def run(ctx):
                 "polygons and disjoint triangles (n_node=n_edge), harness/meshes.zoo, sample files (thorough); per call: element dim "
                 "n_face / n_node / n_edge / malformed, 0..3 leading dims, dtype float64/float32/int64/int32/bool, name, all 15 "
                 "(rule, order) pairs round-robin, constant-1 data once per grid; distinct = distinct (mesh, call); non-trivial = "
-                "non-face element dim, or non-constant data on >1 faces")
+                "non-face element dim, or non-constant data on >1 faces; NAME × LENGTH product of the last dimension; PROCESS-STATE "
+                "streams: 24 (quick) / 40 (thorough) grids of one family (equal n_face, different geometry; rings, hulls, patches), "
+                "interleaved with grids of another size, built → integrated with one (mostly non-default) rule → released "
+                "(del + gc.collect(), no reference kept) one after another, every fifth kept alive next to its successor")
     ctx.assumptions = [
         "face areas are inputs of the model: they are the floats returned by an independent compute_face_areas(rule, order) call "
         "on a separately built Grid (their geometric correctness is C05)",
@@ -473,9 +618,12 @@ def run(ctx):
         "of the terms evaluated in the standard model of binary64 arithmetic (relative error ≤ 2^-53 per product and per addition, FMA "
         "included) lies inside it, for n_face ≤ 2^53; assumed, not proved: that np.einsum / np.dot obey the standard model "
         "(no underflow/overflow, no reduced-precision accumulation)",
-        "the element dimension is the last one (DESIGN 'Interpretation choices'); arrays whose last dimension has a non-grid name "
-        "are not judged, only compared (model and code both reject when the length matches nothing)",
-        "UxDataset.integrate is not exercised: UxDataset cannot be constructed under the installed xarray",
+        "the element dimension is the last one (DESIGN 'Interpretation choices'); a non-grid name is judged when its length equals "
+        "n_node or n_edge (must be rejected), otherwise only compared with the model (rejected, as /repo does)",
+        "no dependence on previously integrated grids / on process state is a CORRESPONDENCE obligation, not a theorem: the model's "
+        "integrate is a function of (this grid's areas, the data) by construction; the process-state streams test that the code is "
+        "too (address re-use by later grids is counted in coverage.process_state, it cannot be forced)",
+        "UxDataset can only be built from a dict of variables here; the legacy UxDataset.integrate is exercised on 1-D variables",
         "unsupported orders are never generated (gaussian 11 segfaults inside numba: out of the property's quantifier)",
     ]
     driver_selftest(ctx)
@@ -513,8 +661,17 @@ def run(ctx):
             continue
         big = sizes["n_face"] > 150
         judge_history(ctx, history_for(ctx, md, sizes, pool, ctx.n(2, 3), big=big))
+    # process-state streams (no dependence on previously integrated grids)
+    import gc
+
+    gc.collect()
+    for _ in range(ctx.n(3, 10)):
+        run_process(ctx, gen_process(ctx, ctx.n(24, 40)))
     ctx.extra["rules_covered"] = sorted(k for k in ctx.stats if k.startswith("rule:"))
 
 
 def replay(ctx, rp):
-    judge_history(ctx, rp["input"], "replay")
+    if rp["input"].get("kind") == "process":
+        run_process(ctx, rp["input"])
+    else:
+        judge_history(ctx, rp["input"], "replay")
